@@ -1096,8 +1096,7 @@ class AttrParser(BaseParser):
                 ):
                     # Hexadecimal literals are the bit pattern of the float
                     bits = self.parse_integer(allow_boolean=False, allow_negative=False)
-                    raw = bits.to_bytes(element_type.compile_time_size, "little")
-                    return element_type.unpack(raw, 1)[0]
+                    return self._float_from_hex_bits(bits, element_type, token.span)
                 return self.parse_float()
 
             values = self.parse_comma_separated_list(
@@ -1120,6 +1119,18 @@ class AttrParser(BaseParser):
         affine_set = self.parse_affine_set()
         self.parse_characters(">", " in affine_set attribute")
         return AffineSetAttr(affine_set)
+
+    def _float_from_hex_bits(self, bits: int, type: AnyFloat, span: Span) -> float:
+        """
+        Interpret a hexadecimal literal as the bit pattern of a float of the given type.
+        """
+        size = type.compile_time_size
+        if not 0 <= bits < (1 << (8 * size)):
+            self.raise_error(
+                f"hexadecimal float literal out of range for type {type}",
+                at_position=span,
+            )
+        return type.unpack(bits.to_bytes(size, "little"), 1)[0]
 
     @dataclass
     class _TensorLiteralElement:
@@ -1180,14 +1191,16 @@ class AttrParser(BaseParser):
         def to_complex(
             self, parser: AttrParser, type: ComplexType
         ) -> tuple[float, float] | tuple[int, int]:
-            assert isinstance(self.value, tuple)
+            if not isinstance(self.value, tuple):
+                parser.raise_error(
+                    "Expected a complex literal such as (1.0, 2.0)",
+                    at_position=self.span,
+                )
 
             if isinstance(element_type := type.element_type, AnyFloat):
                 # Hexadecimal literals are the bit pattern of the float
                 real, imag = (
-                    element_type.unpack(
-                        int(v).to_bytes(element_type.compile_time_size, "little"), 1
-                    )[0]
+                    parser._float_from_hex_bits(int(v), element_type, self.span)  # pyright: ignore[reportPrivateUsage]
                     if is_hex
                     else float(v)
                     for v, is_hex in zip(self.value, self.hex_components)
@@ -1212,8 +1225,7 @@ class AttrParser(BaseParser):
                     and self.span.text[:2] in ("0x", "0X")
                 ):
                     # Hexadecimal literals are the bit pattern of the float
-                    raw = self.value.to_bytes(type.compile_time_size, "little")
-                    return type.unpack(raw, 1)[0]
+                    return parser._float_from_hex_bits(self.value, type, self.span)  # pyright: ignore[reportPrivateUsage]
                 return self.to_float(parser)
 
             match type:
@@ -1408,7 +1420,12 @@ class AttrParser(BaseParser):
             literal_span = StringLiteral(
                 token.span.start + 1, token.span.end, token.span.input
             )
-            return StringAttr(literal_span.string_contents)
+            try:
+                return StringAttr(literal_span.string_contents)
+            except UnicodeDecodeError:
+                self.raise_error(
+                    "symbol name is not valid UTF-8", at_position=token.span
+                )
         return StringAttr(token.text[1:])
 
     def parse_symbol_name(self) -> StringAttr:
@@ -1507,6 +1524,7 @@ class AttrParser(BaseParser):
             return bool
 
         is_hexadecimal_token: bool = self._current_token.text[:2] in ["0x", "0X"]
+        value_span = self._current_token.span
 
         # Parse the value
         if (value := self.parse_optional_number()) is None:
@@ -1524,8 +1542,9 @@ class AttrParser(BaseParser):
         if isinstance(type, AnyFloat):
             if is_hexadecimal_token:
                 assert isinstance(value, int)
-                raw = value.to_bytes(type.compile_time_size, "little")
-                return FloatAttr(next(type.iter_unpack(raw)), type)
+                return FloatAttr(
+                    self._float_from_hex_bits(value, type, value_span), type
+                )
             return FloatAttr(float(value), type)
 
         if isa(type, IntegerType | IndexType):
